@@ -89,9 +89,11 @@ Section Sound.
     rewrite N.eqb_refl, Eb in H. apply N.leb_le in Le. rewrite Le, E1 in H. now apply N.leb_le.
   Qed.
 
-  Lemma fstep_sound s e s' : fstep replicas byz genesis s e = Some s' -> step s s'.
+  Lemma fstep_sound_single s e s' :
+    (forall r c o, e <> FCommits r c o) ->
+    fstep replicas byz genesis s e = Some s' -> step s s'.
   Proof.
-    destruct e as [b|i h|i v h|r v|r v h|r h agg|r hp obs]; cbn [fstep].
+    intros NotMulti. destruct e as [b|i h|i v h|r v|r v h|r h agg|r hp obs|r cands obs]; cbn [fstep].
     - destruct (U s (b_hash b)) eqn:E; [discriminate|].
       destruct (negb (b_hash b =? b_parent genesis)) eqn:G; [|discriminate].
       intros [= <-]. apply negb_true_iff, N.eqb_neq in G. now constructor.
@@ -130,6 +132,44 @@ Section Sound.
         * rewrite Hg. exact Eg.
         * rewrite <- Hhash. now apply fcertb_sound.
       + eapply segb_sound; eauto.
+    - exfalso. eapply NotMulti; reflexivity.
+  Qed.
+
+
+  Lemma try_fcommit_sound s r hp obs s' rest :
+    try_fcommit replicas byz genesis s r hp obs = Some (s', rest) -> step s s'.
+  Proof.
+    unfold try_fcommit.
+    destruct (U s hp) as [p|] eqn:Ep; [|discriminate].
+    destruct (U s (b_qc p)) as [g|] eqn:Eg; [|discriminate].
+    match goal with |- (if ?c then _ else _) = _ -> _ => destruct c eqn:G; [|discriminate] end.
+    rewrite !andb_true_iff in G. destruct G as (((((Hh & Hhash) & Hg) & Hc) & Hpar) & Hv).
+    apply N.eqb_eq in Hhash, Hg, Hpar, Hv.
+    match goal with |- match ?c with _ => _ end = _ -> _ => destruct c as [[|x l']|] eqn:Es; try discriminate end.
+    match goal with |- match ?c with _ => _ end = _ -> _ => destruct c as [rest'|]; [|discriminate] end.
+    intros [= <- <-].
+    eapply (step_commit member honest qsize genesis s r g p (x :: l')); auto.
+    + unfold two_chain. rewrite Hhash. repeat split; auto.
+      * rewrite Hg. exact Eg.
+      * rewrite <- Hhash. now apply fcertb_sound.
+    + eapply segb_sound; eauto.
+  Qed.
+
+  Lemma fcommits_fold_reach cands : forall s r obs s',
+    reach s -> fcommits_fold replicas byz genesis s r cands obs = Some s' -> reach s'.
+  Proof.
+    induction cands as [|h1 rest IH]; simpl; intros s r obs s' R H.
+    - destruct obs; [now injection H as <-|discriminate].
+    - destruct (try_fcommit replicas byz genesis s r h1 obs) as [[s1 obs1]|] eqn:E.
+      + eapply IH; [|eauto]. econstructor; eauto. eapply try_fcommit_sound; eauto.
+      + eapply IH; eauto.
+  Qed.
+
+  Lemma fstep_reach s e s' : reach s -> fstep replicas byz genesis s e = Some s' -> reach s'.
+  Proof.
+    intros R H. destruct e as [b|i h|i v h|r v|r v h|r h agg|r hp obs|r cands obs].
+    8:{ cbn [fstep] in H. eapply fcommits_fold_reach; eauto. }
+    all: econstructor; [exact R|]; eapply fstep_sound_single; eauto; intros; discriminate.
   Qed.
 
   Lemma frun_reach es : forall s i s', reach s -> frun replicas byz genesis s es i = (s', None) -> reach s'.
@@ -137,7 +177,7 @@ Section Sound.
     induction es as [|e es IH]; simpl; intros s i s' R H.
     - now injection H as <-.
     - destruct (fstep replicas byz genesis s e) as [s1|] eqn:E; [|discriminate].
-      eapply IH; [|eauto]. econstructor; eauto. eapply fstep_sound; eauto.
+      eapply IH; [|eauto]. eapply fstep_reach; eauto.
   Qed.
 
   Theorem freach_safe s :
